@@ -516,7 +516,13 @@ class ExprMixin:
                 if self.check_div:
                     self.ctx.oblige(st, "safe:div", yr != 0, text="division by zero")
             if self.float_div == "uninterpreted":
-                return SV(REAL, self.fdiv_fun()(xr, yr))
+                f = self.fdiv_fun()
+                a, b = z3.Reals("fd_a fd_b")
+                ax = z3.ForAll([a, b], z3.Implies(z3.And(0 <= a, a <= b, b > 0), z3.And(f(a, b) >= 0, f(a, b) <= 1)),
+                               patterns=[f(a, b)], qid="fdiv_unit")
+                if st is not None and not any(ax.eq(p) for p in st.pc):
+                    st.pc.append(ax)
+                return SV(REAL, f(xr, yr))
             return SV(REAL, xr / yr)
         if isinstance(op, ast.FloorDiv):
             if ty.kind == "int":
@@ -535,7 +541,7 @@ class ExprMixin:
         raise Unsupported("operator %s" % op.__class__.__name__)
 
     def fdiv_fun(self):
-        self.ctx.models_used.add("float division kept uninterpreted: fdiv(x, y) is only a function of its arguments")
+        self.ctx.models_used.add("float division kept uninterpreted: fdiv(x, y) is a function of its arguments with 0 <= x <= y, y > 0 => 0 <= fdiv(x, y) <= 1 (true of IEEE division)")
         return z3.Function("fdiv", z3.RealSort(), z3.RealSort(), z3.RealSort())
 
     def py_floordiv(self, x, y):
